@@ -65,6 +65,27 @@ NOTES = {
  "C18": "Also runs the real release binary over TCP (-s -w): every message of generated programs (a quarter end with a burst of port messages) must arrive before the connection closes; failures of the TCP rig itself are inconclusive (exit 2 from 8 on), never a verdict. Trusted base: the reference interpreter of the line protocol (hex fields = non-empty strings of hex digits that fit). Thread interleavings of the socket workers are sampled by the OS; the one-batch schedule is deterministic.",
  "C19": "Trusted base: the 10-line cost function transcribed from the statement. Complete enumeration of the per-area tuple space; other areas' settings sampled + one-bit flips; plus a transition walk (one register changes at a time, registers written through Bus::write) for history-dependent costs.",
 }
+
+# round 2: what every run additionally contains (DESIGN.md section 10)
+SOUP = " Plus instruction soups: 300,000 (quick) model-guided straight-line programs of 4-48 instructions of every form, run back to back in lockstep with the reference (state after every instruction, memory at the end), and primers: 1 case in 16 preceded by a failing step, 1 memory-operand case in 6 by a sibling encoding, on the same emulator. Saved failing inputs of seeded changes (corpus/regress) are re-judged first."
+ROUND2 = {
+ "C01": SOUP, "C02": SOUP, "C03": SOUP, "C04": SOUP + " Operands inside the instruction itself are a class.", "C08": SOUP,
+ "C07": SOUP + " A form-balanced phase (2M cases from every family's structured builder) complements the uniform word enumeration; thorough: libFuzzer over raw instruction streams in lockstep (fuzz_prog).",
+ "C20": SOUP + " In the soups every instruction's charge is compared; thorough: fuzz_prog.",
+ "C05": " Primers as in C01-C04; saved failing inputs of seeded changes are re-judged first.",
+ "C06": " Histories also rewrite vector-table entries on the way (MES set_handler, guest stores); soups with interrupts raised between arbitrary instruction forms (each vector its own RTE stub).",
+ "C09": " Histories store and load through every addressing mode, place the instruction right next to the word it accesses, and interleave instruction fetches; all harness set-up writes go through Bus::write.",
+ "C10": " Bursts of 255-65537 requests; soups with interrupts raised between arbitrary instruction forms.",
+ "C11": " GOT values related to the table, the load base and each other; string tables with shared tails.",
+ "C12": " Symbol-table fields over their whole range (reserved section indices), string tables with shared tails and unreferenced strings.",
+ "C13": " Re-runs suspended and resumed over the control channel from a second thread must give byte-identical results; timer events placed in the program's last instruction (request pending at the exit address).",
+ "C14": " Newline-structure classes (a newline-free tail of 2^10-2^12 bytes behind the last newline) and texts up to 4096 bytes in the console sequences.",
+ "C15": " The interrupt poll after each step keeps the step's flags and PC; lines over real TCP (early stops, over-long lines, non-UTF-8) with panics of the emulator's own threads counted.",
+ "C16": " Word stores over two ports' DRs and stray writes to aliases of the port registers.",
+ "C17": " Writes to the other channels' registers and to aliases; the re-partitioned run reaches the registers through guest instructions (every addressing mode).",
+ "C18": " TCP phase: ignored lines of 2^12-2^17 bytes whose tail reads like a command, lines that are not UTF-8; a loop that keeps emitting sync messages but acts on no line is reported as deaf.",
+ "C19": " Transition walk with silent bursts of 255-65537 register writes and stray writes to aliases; both neighbours of every excluded address block.",
+}
 ALL = ["C%02d" % i for i in range(1, 21)]
 manifest = {
   "version": 1,
@@ -94,7 +115,7 @@ for pid in ALL:
           "evidence_file": "evidence/%s.json" % pid,
           "replay_cmd_template": "./check %s --replay {path}" % pid,
           "engine": "h8verif",
-          "level_claimed": {"category": "exploration", "text": text, "design_ref": "DESIGN.md section " + ref},
+          "level_claimed": {"category": "exploration", "text": text + ROUND2.get(pid, ""), "design_ref": "DESIGN.md section " + ref + " and section 10"},
           "level_note": NOTES.get(pid, STEP_NOTE),
           "technique": "property-based testing: " + tech,
         })
